@@ -168,6 +168,8 @@ def c11_wrappers():
         "untyped items": lambda B: {"props": {"d": Property(Element(items=B))}},
         "tuple items": lambda B: {"props": {"d": Property(Element(items=[String(), B]))}},
         "additionalItems": lambda B: {"props": {"d": Property(Element(items=[String()], additionalItems=B))}},
+        "additionalItems (single items)": lambda B: {"props": {"d": Property(Array(String(), additionalItems=B))}},
+        "additionalItems (no items)": lambda B: {"props": {"d": Property(Element(additionalItems=B))}},
         "contains": lambda B: {"props": {"d": Property(Element(contains=B))}},
         "nested properties": lambda B: {"props": {"d": Property(Element(properties={"p": Property(B)}))}},
         "patternProperties": lambda B: {"props": {"d": Property(Element(patternProperties={"^x": B}))}},
@@ -810,18 +812,22 @@ def c19_annotations(run):
     from statham.schema.property import Property
     from statham.schema.constants import NotPassed
     subs, classes = c19_models()
-    acc = Acc(run, "C19-annotations", f"{len(subs)} element shapes placed under a property (required / optional) and under array items of a model; accepted values; "
+    acc = Acc(run, "C19-annotations", f"{len(subs)} element shapes placed under a property (required / optional) and under array items of a model, alone and next to one / two patternProperties matching the property's name; accepted values; "
               "the annotation text is parsed and the runtime attribute checked against it (NotPassed only under Maybe, int where float is announced)")
     w = quiet()
     try:
-        for name, (mk, good) in subs.items():
+        from statham.schema.elements import Element as _El
+        variants = [("", {}), ("+pattern", {"patternProperties": {"^p": _El()}}), ("+2patterns", {"patternProperties": {"^p": _El(), "p$": _El(minProperties=0)}})]
+        for name0, (mk, good) in subs.items():
+          for vname, mkw in variants:
+            name = name0 + vname
             for required in (False, True):
                 d = ObjectClassDict()
                 try:
                     d["p"] = Property(mk(), required=required)
                 except Exception:
                     continue
-                M = ObjectMeta("Model", (Object,), d)
+                M = ObjectMeta("Model", (Object,), d, **{k: (dict(v) if isinstance(v, dict) else v) for k, v in mkw.items()})
                 prop = M.properties["p"]
                 try:
                     ann = prop.annotation
@@ -849,7 +855,7 @@ def c19_annotations(run):
                         continue
                     if not ok:
                         acc.fail(key, f"attribute holds {val!r} ({type(val).__name__}) which is not of the annotated type {ann}",
-                                 extra={"tags": ["D20-shape"] if name == "allof_obj_second" else []})
+                                 extra={"tags": ["D20-shape"] if name0 == "allof_obj_second" else []})
                     if term[0] != "Maybe" and isinstance(val, NotPassed):
                         acc.fail(key, f"annotated as always present ({ann}) but the attribute holds NotPassed")
                 has_default = not isinstance(getattr(el, "default", NotPassed()), NotPassed)
